@@ -207,10 +207,17 @@ class Machine:
         k, items = st[0], list(st[1])
         b = frame["def"]
 
+        scn = bool(frame.get("scn"))
+
+        def start(name):
+            if scn:
+                return self.run_scenarios([name], frame, [])
+            return self.behavior(name)
+
         def enabled_of(cands):
             out = []
             for name, w in cands:
-                d = self.prog["behaviors"][name]
+                d = self.prog["scenarios" if scn else "behaviors"][name]
                 try:
                     self.check_pre(d)
                     self.check_inv(d)
@@ -224,7 +231,7 @@ class Machine:
             if not en:
                 raise Reject()
             name = en[self.pick(en)][0] if len(en) > 1 else en[0][0]
-            yield from self.behavior(name)
+            yield from start(name)
         else:
             remaining = list(items)
             while remaining:
@@ -233,7 +240,7 @@ class Machine:
                     raise Reject()
                 name, w = en[self.pick(en)] if len(en) > 1 else en[0]
                 remaining.remove((name, w))
-                yield from self.behavior(name)
+                yield from start(name)
         self.check_inv(b)
 
     # -- modular scenarios ---------------------------------------------------------------
